@@ -183,14 +183,16 @@ def run(rep, tier, seed):
         reqs.append((4, [enc_table(T), 0, 0, 0, enc_str(text)]))
         metas.append((T, Lt, text, tree))
     res = run_model(reqs)
+    rep.trail = []
     for (T, Lt, text, tree), r in zip(metas, res):
+        rep.trail.append({'table': T, 'text': text, 'expected': tree, 'kind': 'generated'})
         got = parsing.parse_outcome(Lt, text)
         rep.case(('gen', text, repr(T)), nontrivial=(tree[0] != 0),
                  sample={'table': T, 'text': text, 'expected': str(__import__('core').build_expr(tree))})
         rep.count('generated')
         rep.compared += 1
         if got != [0, [tree]]:
-            rep.violations.append({'key': 'gen-tree', 'kind': 'generated', 'table': T, 'text': text, 'expected': tree,
+            rep.violations.append({'key': 'gen-tree', 'kind': 'generated', 'table': T, 'text': text, 'expected': tree, '_at': len(rep.trail) - 1,
                                    'what': 'grammar-derived expression did not parse to its tree: %r' % (got,)})
         elif r != got and len(rep.broken) < 5:
             rep.broken.append('correspondence C02/generated: table %r text %r model %r implementation %r' % (T, text, r, got))
